@@ -834,6 +834,19 @@ func c04Placeholders(c *config) {
 			outs = append(outs, obs)
 		}
 		o.Case("placeholders", []string{g.encoding()}, outs)
+		// the same observation, expected from what the generator wrote (no model involved): in a module written
+		// without a fault every blockaddress constant is, by pointer, the block with the label written at the site,
+		// in the function named there, and the parent links hold
+		if len(g.faults) == 0 {
+			want := phExpect(g)
+			for rep, got := range outs {
+				if got != want {
+					o.Fail("reference_identity", "", "a blockaddress constant is not the block its site names (or a parent link is off)", map[string]interface{}{"src": src, "observed": got, "expected": want, "parse": rep})
+					break
+				}
+			}
+			o.Pass("blockaddress_binding")
+		}
 		o.Stat("placeholders.modules." + strings.Fields(outs[0])[0])
 		o.StatN("placeholders.sites", g.nsites)
 		for k, n := range g.where {
@@ -852,4 +865,43 @@ func c04Placeholders(c *config) {
 			o.Sample(map[string]interface{}{"placeholders_module": src, "encoding": g.encoding(), "observed": outs[0]})
 		}
 	}
+}
+
+// phExpect renders what phObserve must see on a module the generator wrote without a fault
+func phExpect(g *phGen) string {
+	same := func(a, b phIdent) bool { return a.named == b.named && a.name == b.name && a.id == b.id }
+	site := func(st phSite) string {
+		for i, t := range g.tops {
+			if t.kind == 'f' && same(t.id, st.f) {
+				for j, b := range t.blocks {
+					if same(b.label, st.b) {
+						return fmt.Sprintf("%d.%d", i, j)
+					}
+				}
+			}
+		}
+		return "-"
+	}
+	sites := func(l []phSite) string {
+		var t []string
+		for _, st := range l {
+			t = append(t, site(st))
+		}
+		return strings.Join(t, ",")
+	}
+	var parts []string
+	for _, t := range g.tops {
+		switch t.kind {
+		case 'v', 'a':
+			parts = append(parts, "v="+sites(t.sites))
+		default:
+			var bl []string
+			for _, b := range t.blocks {
+				bl = append(bl, "1:"+sites(b.sites))
+			}
+			parts = append(parts, "f1="+strings.Join(bl, "/"))
+		}
+	}
+	parts = append(parts, "L="+sites(g.late))
+	return "Ok " + strings.Join(parts, ";")
 }
